@@ -145,12 +145,12 @@ class ContentElement:
     '''Attaches the element to `doc`, or detaches it from its current owning
     `ContentDocument` if `doc` is `None`.'''
 
+    if self.parent() is not None:
+      raise RuntimeError("Element must be removed from parent first")
+
     if doc is None:
 
       # detaching
-
-      if self.parent() is not None:
-        raise RuntimeError("Element must be removed from parent first")
 
       if isinstance(self._doc, ContentDocument) and (
           self._doc.get_body() is self or self._doc.get_region(self.get_id()) is self
